@@ -1,17 +1,17 @@
 #!/bin/bash
-# usage: trybenign_all.sh <name> ; applies seeded/benign/<name>.diff to the scratch clone /tmp/bt/repo and runs all 19 checks (8 at a time)
+# usage: trybenign_all.sh <name> ; applies seeded/benign/<name>.diff to the scratch clone ${BT:-/tmp/bt}/repo and runs all 19 checks (8 at a time)
 set -u
 N=$1
-mkdir -p /tmp/bt; [ -d /tmp/bt/repo ] || git clone -q /repo /tmp/bt/repo
-cd /tmp/bt/repo && git checkout -q -- . && git clean -fdq && git apply /verif/seeded/benign/$N.diff || exit 3
+mkdir -p ${BT:-/tmp/bt}; [ -d ${BT:-/tmp/bt}/repo ] || git clone -q /repo ${BT:-/tmp/bt}/repo
+cd ${BT:-/tmp/bt}/repo && git checkout -q -- . && git clean -fdq && git apply /verif/seeded/benign/$N.diff || exit 3
 cd /verif
-export RUSTUN_REPO=/tmp/bt/repo VERIF_OUT_DIR=/tmp/bt/out VERIF_TARGET_DIR=/tmp/bt/target
-./bin/verif check C12 > /tmp/bt/log-C12 2>&1      # first one alone: extracts the facts
-for i in $(seq -w 1 19); do echo C$i; done | grep -v C12 | xargs -P 8 -I{} sh -c './bin/verif check {} > /tmp/bt/log-{} 2>&1'
+export RUSTUN_REPO=${BT:-/tmp/bt}/repo VERIF_OUT_DIR=${BT:-/tmp/bt}/out VERIF_TARGET_DIR=${BT:-/tmp/bt}/target
+./bin/verif check C12 > ${BT:-/tmp/bt}/log-C12 2>&1      # first one alone: extracts the facts
+for i in $(seq -w 1 19); do echo C$i; done | grep -v C12 | xargs -P 8 -I{} sh -c './bin/verif check {} > ${BT:-/tmp/bt}/log-{} 2>&1'
 for i in $(seq -w 1 19); do
-  if ! tail -1 /tmp/bt/log-C$i | grep -q " 0 violation"; then
-    echo "== $N C$i: $(tail -1 /tmp/bt/log-C$i)"
-    grep -E "^  rule" /tmp/bt/log-C$i | cut -c1-${TRY_W:-420} | head -${TRY_LINES:-4}
+  if ! tail -1 ${BT:-/tmp/bt}/log-C$i | grep -q " 0 violation"; then
+    echo "== $N C$i: $(tail -1 ${BT:-/tmp/bt}/log-C$i)"
+    grep -E "^  rule" ${BT:-/tmp/bt}/log-C$i | cut -c1-${TRY_W:-420} | head -${TRY_LINES:-4}
   fi
 done
 echo "== $N done"
